@@ -401,6 +401,7 @@ LS_CONTRACTS = {
 u = unit("transcript.transcript_label_static", T, "transcript_label_static", [("label", sym("label"))], c_label_static, out_all,
          trace_only=True, tracked=("label", "leaked", "cached"))
 u.extra_contracts = LS_CONTRACTS
+u.memo = False          # this unit's contract IS the contract of the label cache (the store is modelled explicitly)
 
 
 # ------------------------------------------------------------------ Verifier::new
